@@ -44,9 +44,28 @@ def extract(config):
     return _PROGS[d]
 
 
+def repo_view():
+    """the tree the non-Rust inputs (the Lean package) are read from: /repo, or — for a devpatch cache whose patch touches formal/ —
+    a copy of /repo/formal with that patch applied, kept beside the facts"""
+    patch = os.environ.get('DEVP_PATCH')
+    if not patch or 'formal/' not in open(patch).read():
+        return '/repo'
+    root = D + '.repo'
+    if not os.path.isdir(root):
+        import subprocess
+        os.makedirs(root)
+        shutil.copytree('/repo/formal', os.path.join(root, 'formal'), ignore=shutil.ignore_patterns('.lake'))
+        subprocess.run(['git', 'init', '-q'], cwd=root)
+        r = subprocess.run(['git', 'apply', '--include=formal/*', patch], cwd=root, stdout=subprocess.PIPE, stderr=subprocess.STDOUT, text=True)
+        if r.returncode != 0:
+            print('patch does not apply to formal/:', r.stdout[:300])
+    return root
+
+
+REPO = repo_view()
 for pid in sys.argv[2:]:
     m=importlib.import_module('rules.'+pid)
-    ck=engine.Check(pid,tier,PR); ck.repo='/repo'
+    ck=engine.Check(pid,tier,PR); ck.repo=REPO
     ck.extract = extract
     try:
         m.run(ck)
